@@ -342,6 +342,10 @@ def rule_r3(chk, p, t):
             bad.append("wrap_anomaly is not the outermost decorator (the circular short-cut would return an unwrapped angle)")
         if name in need_ecc and "check_ecc" not in decs:
             bad.append("circular case not guarded by check_ecc")
+        if "check_ecc" in decs and not (name in need_ecc and len(fn.params) == 2):
+            # check_ecc returns its first argument unchanged for a circular orbit: right only where the conversion
+            # is the identity at e = 0, i.e. between two anomalies of one orbit
+            bad.append(f"check_ecc short-circuits `{name}({', '.join(fn.params)})` to its first argument for circular orbits, but this conversion is not the identity at e = 0 (a longitude is not an anomaly: the node / periapsis angles are not subtracted)")
         if name in closed:
             rets = [n for n in walk_no_nested(fn.node) if isinstance(n, ast.Return)]
             if not rets or canon(rets[0].value) != canon(ast.parse(closed[name], mode="eval").body):
